@@ -52,7 +52,17 @@ def t_blocks(text, k):
     return "\n".join(out)
 
 
-TRANSFORMS = [("identity", t_identity), ("multibyte-comments", t_multibyte), ("crlf", t_crlf), ("block-comments-and-tabs", t_blocks)]
+def t_mbcode(text, k):
+    """non-ASCII characters OUTSIDE comments: a log statement with a multi-byte string at the start of every definition body"""
+    out = []
+    for line in text.split("\n"):
+        out.append(line)
+        if re.match(r"^\s*(template|function)\b.*\{\s*$", line):
+            out.append('  log("%s %s");' % (MB[k % len(MB)], MB[(k + 2) % len(MB)]))
+    return "\n".join(out)
+
+
+TRANSFORMS = [("identity", t_identity), ("multibyte-string-in-code", t_mbcode), ("multibyte-comments", t_multibyte), ("crlf", t_crlf), ("block-comments-and-tabs", t_blocks)]
 
 
 def chars_of(text):
@@ -260,7 +270,7 @@ def run(tier):
     cov = {"states": states + gst + l1.distinct, "transitions": states + ggen + l1.generated, "traces_validated_against_impl": len(records),
            "exhaustive": False, "evaluations": len(records), "distinct_nontrivial": len(progs),
            "rule": "%d programs (corpora, samples of the C08 / C10 / micro-program generators, syntax faults at sampled token positions, "
-                   "unresolved include, unclosed comments, sugar errors) x 4 renderings (identity, multi-byte comment lines, CRLF, block comments "
+                   "unresolved include, unclosed comments, sugar errors) x 5 renderings (identity, multi-byte string literal in code, multi-byte comment lines, CRLF, block comments "
                    "of C05's shapes + tabs) = %d runs in-process and through the real binary with SARIF; %d labels validated by "
                    "LocationsTrace.tla on a character model of the original file; non-trivial = distinct programs" %
                    (len(progs), len(records), nlabels),
